@@ -3,7 +3,7 @@ import ast
 
 from . import scopes
 from ..core.report import DOMAIN_D
-from ..rules import roles, loops, eager, degree, frame, mirror, safediv, runmin, onsegment
+from ..rules import roles, loops, eager, degree, frame, mirror, safediv, runmin, onsegment, sides
 from ..engines.signs import Signs, NONNEG, ZERO
 from .common import e1, e2
 
@@ -48,6 +48,7 @@ def run(idx, rep, tier):
     runmin.r_runmin(idx, rep, [x.name for x in idx.lib_modules() if x.name.startswith("distance3d.distance")], floor=6)
     onsegment.r_onsegment(idx, rep, [x.name for x in idx.lib_modules() if x.name.startswith("distance3d.distance")], floor=4)
     onsegment.r_clipsym(idx, rep, [x.name for x in idx.lib_modules() if x.name.startswith("distance3d.distance")], floor=4)
+    sides.r_sides(idx, rep, [x.name for x in idx.lib_modules() if x.name.startswith("distance3d.distance")], floor=20, assignments=False)
     mirror.r_mirror(idx, rep)
     mirror.r_casedispatch(idx, rep)
     mirror.r_tournament(idx, rep)
